@@ -84,6 +84,7 @@ def Op.fsLevel : Op → Bool
 
 structure Writer where
   token : Unit := ()
+deriving DecidableEq
 
 structure Storage where
   ro : Bool
@@ -193,5 +194,73 @@ structure Call where
 def run (c : Cfg) (s : Storage) (img : Dev) : List Call → Dev
   | [] => img
   | x :: xs => run c s (applyWrs img (step c s x.k x.fin x.ss x.op x.payload).writes) xs
+
+/-! ### constructors: how a storage comes to be read-only
+
+  The table is regenerated from backend/file/file.go and diskfs.go: the extractor EVALUATES each
+  constructor's body for every concrete flag combination (harness/facts/readonly/ctor.go) and emits
+  one row per combination, six numbers each. -/
+
+/-- one row of the constructor table -/
+structure CtorRow where
+  ctor : Nat      -- 0 diskfs.Open, 1 file.OpenFromPath, 2 file.OpenFromPathWithExclusive, 3 file.New, 4 file.CreateFromPath
+  a : Nat         -- Open: the OpenModeOption value; the others: the readOnly argument (0/1)
+  b : Nat         -- the exclusive argument (0/1); 0 where there is none
+  opened : Nat    -- 0: does not open a file itself (file.New: the caller did), 1: one os.OpenFile, 2: refuses without opening
+  flags : Nat     -- the os.OpenFile flags (Linux values)
+  roField : Bool  -- the readOnly field of the rawBackend built
+deriving DecidableEq, Repr
+
+def decodeRows : List Nat → List CtorRow
+  | c :: a :: b :: o :: f :: r :: rest => ⟨c, a, b, o, f, r == 1⟩ :: decodeRows rest
+  | _ => []
+
+/-- what the caller asked for. `roMode`: the value of the constant diskfs.ReadOnly (regenerated) -/
+def CtorRow.askedRO (roMode : Nat) (r : CtorRow) : Bool :=
+  if r.ctor == 0 then r.a == roMode
+  else if r.ctor == 4 then false
+  else r.a == 1
+
+/-- O_ACCMODE of the flags: 0 O_RDONLY, 1 O_WRONLY, 2 O_RDWR -/
+def accMode (flags : Nat) : Nat := flags % 4
+
+def CtorRow.key (r : CtorRow) : Nat × Nat × Nat := (r.ctor, r.a, r.b)
+
+def findRow (rows : List CtorRow) (ctor a b : Nat) : Option CtorRow :=
+  rows.find? (fun r => r.ctor == ctor && r.a == a && r.b == b)
+
+/-- the storages the library and its callers build -/
+inductive Stor
+  | raw (roField : Bool)               -- backend/file rawBackend over an *os.File
+  | rawNoWriter (roField : Bool)       -- rawBackend over an fs.File that is no io.WriterAt: ErrNotSuitable
+  | refusing                           -- any backend whose Writable() fails
+  | sub (u : Stor) (off size : Nat)    -- backend.Sub (also built by the library for partitions)
+deriving DecidableEq, Repr
+
+/-- rawBackend.Writable: the handle is handed out only under `!readOnly`; SubStorage.Writable asks the
+    underlying storage first and hands a refusal on -/
+def Stor.writable : Stor → Option Writer
+  | .raw ro => if ro then none else some {}
+  | .rawNoWriter _ => none
+  | .refusing => none
+  | .sub u _ _ => match u.writable with
+    | none => none
+    | some w => some w
+
+def Stor.toStorage (s : Stor) : Storage := ⟨s.writable.isNone⟩
+
+/-- nested backend.Sub, innermost first -/
+def subs : List (Nat × Nat) → Stor → Stor
+  | [], u => u
+  | (o, n) :: l, u => subs l (.sub u o n)
+
+/-- diskfs.OpenBackend(b, WithOpenMode(m)): `honours` is the as-found switch (regenerated) - whether the
+    function acts on the mode it parses; when it does, a read-only mode wraps the storage in one whose
+    Writable() refuses -/
+def openBackend (honours askedRO : Bool) (inner : Stor) : Stor :=
+  if honours && askedRO then .refusing else inner
+
+/-- the backend a row's constructor returns (none: the constructor refuses, there is no backend) -/
+def CtorRow.backend (r : CtorRow) : Option Stor := if r.opened == 2 then none else some (.raw r.roField)
 
 end Diskfs.ReadOnly
